@@ -27,6 +27,8 @@ type c03Case struct {
 	PreOps  []string      `json:"preOps,omitempty"`  // earlier operations on the same node tree (From-Root side only; Markdown has no state)
 	WFail   int           `json:"wFail,omitempty"`   // >0: the writer of both sides fails at write index WFail-1 (text and encoded output)
 	Massive bool          `json:"massive,omitempty"` // WithMassive on both sides (an option both API families accept)
+	Dry     bool          `json:"dry,omitempty"`     // walk: WithDryRun on both sides (names are then validated before anything is visited)
+	PreRoot bool          `json:"preRoot,omitempty"` // mkdir: the root already exists in the target directory
 }
 
 var c03Ops = []string{"text", "json", "yaml", "toml", "walk", "walkiter", "mkdir", "verify"}
@@ -55,11 +57,15 @@ func c03Cases(c c03Case) (root, md ops.Case) {
 			cs.Opts.Encode = c.Op
 		case "walk", "walkiter":
 			cs.Op = "walk"
+			cs.Opts.DryRun = c.Dry
 		case "mkdir":
 			cs.Op = "mkdir"
 			cs.Opts.Exts = c.Exts
 			cs.Opts.TargetOpt = "rel"
 			cs.FS = &ops.FSSpec{}
+			if c.PreRoot && model.ValidElem(c.Root) {
+				cs.FS.Pre = []ops.FSEntry{{Path: c.Root, Kind: "d"}}
+			}
 		case "verify":
 			cs.Op = "verify"
 			cs.Opts.Strict = c.Strict
@@ -134,6 +140,9 @@ func c03Check(c c03Case) string {
 	if rr.Err.Nil != mr.Err.Nil {
 		return fmt.Sprintf("%sFrom-Root error %q, From-Markdown error %q", head, rr.Err.Text, mr.Err.Text)
 	}
+	if c.Op == "mkdir" && rr.Err.IsExistPath != mr.Err.IsExistPath {
+		return fmt.Sprintf("%sthe two families refuse for different reasons: From-Root %q, From-Markdown %q", head, rr.Err.Text, mr.Err.Text)
+	}
 	if c.Op == "verify" && sortedLines(rr.Err.Text) != sortedLines(mr.Err.Text) {
 		return fmt.Sprintf("%sverify reports differ:\nFrom-Root: %q\nFrom-Markdown: %q", head, rr.Err.Text, mr.Err.Text)
 	}
@@ -151,7 +160,7 @@ func c03Check(c c03Case) string {
 			return fmt.Sprintf("%svisit %d: From-Root %+v, From-Markdown %+v", head, i, rr.Visits[i], mr.Visits[i])
 		}
 	}
-	if c.Op == "walk" || c.Op == "walkiter" {
+	if (c.Op == "walk" || c.Op == "walkiter") && rr.Err.Nil {
 		if len(rr.Visits) != tree.Count() {
 			return fmt.Sprintf("%swalk visited %d nodes but the tree has %d", head, len(rr.Visits), tree.Count())
 		}
@@ -203,7 +212,7 @@ func c03Record(col *collector, c c03Case) {
 	if c.Massive {
 		cl = append(cl, "massive-on-both-sides")
 	}
-	col.eval(n >= 4 && (repeats > 0 || nonPre), hash64(c.Root, fmt.Sprint(c.Prog, c.Op, c.Alias, c.Branch, c.Exts, c.Strict, c.Drop, c.Extra, c.PreOps, c.WFail, c.Massive)), cl...)
+	col.eval(n >= 4 && (repeats > 0 || nonPre), hash64(c.Root, fmt.Sprint(c.Prog, c.Op, c.Alias, c.Branch, c.Exts, c.Strict, c.Drop, c.Extra, c.PreOps, c.WFail, c.Massive, c.Dry, c.PreRoot)), cl...)
 	col.sample(func() any { return map[string]any{"root": c.Root, "prog": c.Prog, "op": c.Op, "tree": tree.String()} })
 }
 
@@ -278,9 +287,15 @@ func c03Gen() *rapid.Generator[c03Case] {
 		} else {
 			names = genNameMix(poolTiny, poolSyntax, poolUnicode, poolEncoding, poolHostilePathItems(), nil)
 		}
+		preRoot := op == "mkdir" && rapid.IntRange(0, 3).Draw(t, "preRoot") == 0
+		if op == "mkdir" && rapid.IntRange(0, 3).Draw(t, "slashNames") == 0 {
+			// names that are not single path elements but cannot leave the target ("a/b"): both families must refuse alike
+			names = rapid.OneOf(sampled(validElemPool()), sampled(validElemPool()), sampled([]string{"a/b", "x/y/z", "a/", "b//c"}))
+		}
 		f := genForest(forestParams{maxNodes: 14, maxDepth: 8, names: names, oneRoot: true}).Draw(t, "forest")
 		tree := model.Merge(f)[0]
-		c := c03Case{Root: tree.Name, Op: op, Alias: rapid.IntRange(0, 3).Draw(t, "alias") == 0}
+		c := c03Case{Root: tree.Name, Op: op, Alias: rapid.IntRange(0, 3).Draw(t, "alias") == 0, PreRoot: preRoot}
+		c.Dry = op == "walk" && rapid.IntRange(0, 2).Draw(t, "dryWalk") == 0
 		c.Prog = genProgram(t, tree, rapid.Bool().Draw(t, "shuffle"), rapid.Bool().Draw(t, "repeats"))
 		if rapid.IntRange(0, 2).Draw(t, "withPreOps") == 0 {
 			c.PreOps = rapid.SliceOfN(rapid.SampledFrom(preOpPool), 1, 3).Draw(t, "preOps")
